@@ -175,6 +175,9 @@ def rule_dtype_mod(repo, rid, modules, exempt):
             n += 1
             for c in untyped_creators(f.node):
                 key = (f.fq, norm_construct(c, f.node))
+                # torch.as_tensor(x) converts like torch.tensor(x) (without the copy): one tabled site
+                if key not in exempt and key[1].startswith('torch.as_tensor('):
+                    key = (f.fq, 'torch.tensor(' + key[1][len('torch.as_tensor('):])
                 if key in exempt:
                     seen_ex.add(key)
                     res.inst({'function': f.fq, 'constructor': src(c)[:60], 'tabled': exempt[key]}, key)
@@ -970,6 +973,306 @@ def rule_globals(repo, rid):
     return res
 
 
+RANKCMP_TABLE = {                                          # function -> (number of reviewed rank relations, why)
+    'pypose.module.lqr:LQR.lqr_backward': (1, 'the extra batch axis the Jacobian of a single-batch NLS keeps (C14.SQZ)'),
+    'pypose.optim.solver:CG.forward': (2, 'b given as a vector or as a column, documented (C10.GUESS)'),
+}
+
+
+def rank_relations(fnode):
+    """[(node, names)]: an expression that relates the RANKS of two different tensors (a.ndim == b.ndim, a.dim() - b.dim()): the form of one input is read off the
+    rank of another.  Whenever one of the two may carry batch axes the other does not (a shared matrix with batched offsets, a full weight for as many items as the
+    residual has components) two forms have the same rank difference and one of them is silently taken for the other."""
+    def ranks(e):
+        out = []
+        for x in ast.walk(e):
+            if isinstance(x, ast.Attribute) and x.attr == 'ndim':
+                out.append(dotted(x.value) or src(x.value))
+            elif isinstance(x, ast.Call) and isinstance(x.func, ast.Attribute) and x.func.attr in ('dim', 'ndimension') and not x.args:
+                out.append(dotted(x.func.value) or src(x.func.value))
+        return out
+    out, seen = [], set()
+    for n in _own_nodes(fnode):
+        if isinstance(n, ast.Compare):
+            per = [set(ranks(o)) for o in [n.left] + list(n.comparators)]
+            names_ = set().union(*per)
+            if len(names_) >= 2 and sum(1 for p_ in per if p_) >= 2:
+                out.append((n, sorted(names_)))
+                for x in ast.walk(n):
+                    seen.add(id(x))
+    for n in _own_nodes(fnode):
+        if isinstance(n, ast.BinOp) and isinstance(n.op, ast.Sub) and id(n) not in seen:
+            l, r = ranks(n.left), ranks(n.right)
+            if l and r and set(l) != set(r):
+                out.append((n, sorted(set(l) | set(r))))
+    return out
+
+
+@guarded
+def rule_rankcmp(repo, rid, modules):
+    res = RuleResult(rid, 'the form of an input is never read off its rank RELATIVE to another tensor (a.ndim == b.ndim, a.dim() - b.dim()) beyond the %d reviewed sites: with '
+                     'batch axes on one of the two, two documented forms share a rank difference' % len(RANKCMP_TABLE), floor=1)
+    n = 0
+    for m in modules:
+        for f in repo.module(m).functions.values():
+            n += 1
+            rels = rank_relations(f.node)
+            allowed = RANKCMP_TABLE.get(f.fq, (0, None))[0]
+            for k_, (node, names) in enumerate(rels):
+                key = (f.fq, '|'.join(x.replace('self.', '') for x in names))
+                res.inst({'function': f.fq, 'rank relation': src(node)[:50], 'tabled': RANKCMP_TABLE.get(f.fq)}, (f.fq, k_))
+                if len(rels) > allowed and k_ >= allowed:
+                    res.add(Finding(rid, f, '`%s` decides how to read one tensor from its rank relative to another (%s): when only one of them is batched (a shared matrix with '
+                                    'per-item offsets, a full weight for as many items as the residual has components) a documented form has the rank of the other form and '
+                                    'is silently interpreted as it' % (src(node)[:60], ' vs '.join(names)), node=node, construct='rank relation|' + key[1]))
+    res.inst({'functions scanned': n}, 'scan')
+    return res
+
+
+def duck_sequence_tests(fnode):
+    """[(node, what)]: "is this argument already a list of things?" decided by a DUCK test - isinstance(x, Iterable / Sequence / Sized / Container),
+    hasattr(x, '__iter__' / '__len__' / '__getitem__'), a try: iter(x) - where the single objects the argument may be are iterable themselves: an nn.Module container
+    (Sequential, ModuleList), a Tensor, a LieTensor, a str.  A single Sequential kernel is then taken apart into its stages; a single tensor weight into its rows."""
+    out = []
+    for n in _own_nodes(fnode):
+        if isinstance(n, ast.Call) and dotted(n.func) == 'isinstance' and len(n.args) == 2:
+            names = [dotted(x) or src(x) for x in (n.args[1].elts if isinstance(n.args[1], ast.Tuple) else [n.args[1]])]
+            bad = [x for x in names if x.split('.')[-1] in ('Iterable', 'Sequence', 'Sized', 'Container', 'Collection', 'Iterator', 'Reversible')]
+            if bad:
+                out.append((n, 'isinstance(.., %s)' % bad[0]))
+        elif isinstance(n, ast.Call) and dotted(n.func) == 'hasattr' and len(n.args) == 2 and isinstance(n.args[1], ast.Constant) and \
+                n.args[1].value in ('__iter__', '__len__', '__getitem__', '__next__'):
+            out.append((n, "hasattr(.., '%s')" % n.args[1].value))
+    return out
+
+
+DUCK_TABLE = {
+    'pypose.lietensor.lietensor:LieType.to_tuple': 'size arguments: ints or iterables of ints (an int is not iterable)',
+    'pypose.lietensor.lietensor:se3Type.randn': 'sigma: a number or a sequence of numbers', 'pypose.lietensor.lietensor:sim3Type.randn': 'sigma: a number or a sequence of numbers',
+    'pypose.lietensor.lietensor:rxso3Type.randn': 'sigma: a number or a sequence of numbers',
+}
+
+
+@guarded
+def rule_ducklist(repo, rid, modules):
+    res = RuleResult(rid, 'whether an argument is one object or a list of objects is decided by the concrete types tuple / list, never by a duck test (Iterable, Sequence, '
+                     '__iter__, __len__): the single objects these arguments hold - nn.Module containers, tensors, LieTensors - are iterable themselves', floor=1)
+    n = 0
+    for m in modules:
+        for f in repo.module(m).functions.values():
+            n += 1
+            for node, what in duck_sequence_tests(f.node):
+                res.inst({'function': f.fq, 'test': src(node)[:50], 'tabled': DUCK_TABLE.get(f.fq)}, (f.fq, src(node)[:50]))
+                if f.fq in DUCK_TABLE:
+                    continue
+                res.add(Finding(rid, f, '`%s` (%s) treats everything iterable as a list of items: a single nn.Sequential / ModuleList kernel is split into its stages, a single '
+                                'tensor into its rows - silently, with a result of the expected shape' % (src(node)[:60], what), node=node, construct='duck sequence test|' + what))
+    res.inst({'functions scanned': n}, 'scan')
+    fx = ast.parse('def f(k):\n    a = list(k) if isinstance(k, Iterable) else [k]\n    b = k if isinstance(k, (tuple, list)) else [k]\n    return a, b\n').body[0]
+    if len(duck_sequence_tests(fx)) != 1:
+        raise AnalysisError('%s: fixture no longer classified' % rid)
+    return res
+
+
+def shape_form_tests(fnode):
+    """[(node, names)]: a BRANCH (if / ternary / while, not an assert) that compares the shapes of two different tensors: "P has the shape of x, so it is a vector of
+    variances".  A batch of n states makes a full (n, n) matrix have the shape of x."""
+    def shapes(e):
+        return [dotted(x.value) or src(x.value) for x in ast.walk(e) if isinstance(x, ast.Attribute) and x.attr in ('shape', 'lshape')]
+    out = []
+    for n in _own_nodes(fnode):
+        if isinstance(n, (ast.If, ast.IfExp, ast.While)):
+            for c in ast.walk(n.test):
+                if isinstance(c, ast.Compare) and any(isinstance(o, (ast.Eq, ast.NotEq)) for o in c.ops):
+                    per = [set(shapes(o)) for o in [c.left] + list(c.comparators)]
+                    names_ = set().union(*per)
+                    if len(names_) >= 2 and sum(1 for p_ in per if p_) >= 2:
+                        out.append((c, sorted(names_)))
+    return out
+
+
+@guarded
+def rule_shapeform(repo, rid, modules):
+    res = RuleResult(rid, 'no branch reads the FORM of an argument off an equality between its shape and the shape of another tensor (`if P.shape == x.shape: P = diag_embed(P)`): '
+                     'for particular extents (a batch of n states, as many items as components) a documented form has exactly that shape too', floor=1)
+    n = 0
+    for m in modules:
+        for f in repo.module(m).functions.values():
+            n += 1
+            for node, names in shape_form_tests(f.node):
+                res.inst({'function': f.fq, 'test': src(node)[:60]}, (f.fq, src(node)[:60]))
+                res.add(Finding(rid, f, '`%s` decides how to interpret an argument by comparing its shape with the shape of another tensor (%s): a batched input whose extent '
+                                'happens to equal the item dimension (n states of dimension n with one shared n x n matrix) has that shape as well and is silently taken for the '
+                                'other form' % (src(node)[:60], ' vs '.join(names)), node=node, construct='shape equality decides the form|' + '|'.join(names)))
+    res.inst({'functions scanned': n}, 'scan')
+    fx = ast.parse('def f(x, P):\n    assert P.shape[-1] == x.shape[-1]\n    if P.shape == x.shape:\n        P = torch.diag_embed(P)\n    return P\n').body[0]
+    if len(shape_form_tests(fx)) != 1:
+        raise AnalysisError('%s: fixture no longer classified' % rid)
+    return res
+
+
+def collab_attr_writes(fnode):
+    """[(stmt, target)]: `self.a.b = ..` / `self.a.b += ..`: an attribute of an object this object merely HOLDS (its model, its stepper, its solver) is written"""
+    out = []
+    for n in _own_nodes(fnode):
+        tgts = n.targets if isinstance(n, ast.Assign) else ([n.target] if isinstance(n, ast.AugAssign) else [])
+        for t in tgts:
+            for x in ([t] if not isinstance(t, ast.Tuple) else t.elts):
+                if isinstance(x, ast.Attribute) and isinstance(x.value, ast.Attribute) and dotted(x.value.value) == 'self':
+                    out.append((n, x))
+    return out
+
+
+@guarded
+def rule_collabattr(repo, rid, modules):
+    res = RuleResult(rid, 'no method writes an attribute of an object its own object merely holds (`self.model.systime = t`, `self.stepper.max_steps -= 1`): the collaborator '
+                     'belongs to the caller too; a temporary setting that is restored by a plain statement stays behind whenever the code in between raises', floor=1)
+    n = 0
+    for m in modules:
+        for f in repo.module(m).functions.values():
+            n += 1
+            for st, tgt in collab_attr_writes(f.node):
+                res.inst({'function': f.fq, 'write': src(st)[:60]}, (f.fq, src(st)[:60]))
+                res.add(Finding(rid, f, '`%s` sets `%s` on the collaborator `%s`: the object is shared with the caller (and with every other user of it); set temporarily and '
+                                'restored outside a `finally`, the setting survives every exception raised in between' % (src(st)[:60], tgt.attr, dotted(tgt.value)), node=st,
+                                construct='collaborator attribute written|%s.%s' % (dotted(tgt.value), tgt.attr)))
+    res.inst({'functions scanned': n}, 'scan')
+    fx = ast.parse('class A:\n    def f(self, t):\n        saved = self.model.systime\n        self.model.systime = t\n        y = self.model.g(t)\n        self.model.systime = saved\n        self.n = 1\n        return y\n').body[0].body[0]
+    if len(collab_attr_writes(fx)) != 2:
+        raise AnalysisError('%s: fixture no longer classified' % rid)
+    return res
+
+
+SHAPELIT_TABLE = {
+    'pypose.lietensor.convert:mat2SO3': 'the argument is documented as a 3x3 / 3x4 / 4x4 matrix', 'pypose.lietensor.convert:mat2SE3': 'matrix argument',
+    'pypose.lietensor.convert:mat2Sim3': 'matrix argument', 'pypose.lietensor.convert:mat2RxSO3': 'matrix argument', 'pypose.lietensor.convert:from_matrix': 'matrix argument',
+    'pypose.lietensor.lietensor:LieTensor.__torch_function__': 'width check of the result against its ltype',
+    'pypose.lietensor.lietensor:LieTensor.__torch_function__.wrap': 'width check of the result against its ltype',
+    'pypose.optim.optimizer:RobustModel.normalize_RWJ': 'a (1, 1) weight for a scalar residual (F41b)',
+}
+
+
+def shape_literal_tests(fnode):
+    """[(node)]: a branch on `x.shape[-k:] == (a, b)` - the trailing extents of a tensor compared with a literal tuple to tell two FORMS of one argument apart (a skew
+    matrix (.., 3, 3) from a vector (.., 3)).  The second-to-last axis of a batched vector is a batch axis: a batch whose last extent is 3 IS (.., 3, 3)."""
+    out = []
+    for n in _own_nodes(fnode):
+        if isinstance(n, (ast.If, ast.IfExp, ast.While)):
+            for c in ast.walk(n.test):
+                if isinstance(c, ast.Compare):
+                    for side in [c.left] + list(c.comparators):
+                        if isinstance(side, ast.Subscript) and isinstance(side.value, ast.Attribute) and side.value.attr in ('shape', 'lshape') and isinstance(side.slice, ast.Slice):
+                            out.append(c)
+                            break
+    return out
+
+
+@guarded
+def rule_shapelit(repo, rid, modules):
+    res = RuleResult(rid, 'the trailing extents of a tensor are compared with a literal (`x.shape[-2:] == (3, 3)`) only in the %d tabled functions whose argument is a matrix '
+                     'by contract: anywhere else such a test tells a matrix form from a batch of vectors, and a batch whose last extent equals the width is both'
+                     % len(SHAPELIT_TABLE), floor=1)
+    n = 0
+    for m in modules:
+        for f in repo.module(m).functions.values():
+            n += 1
+            for c in shape_literal_tests(f.node):
+                res.inst({'function': f.fq, 'test': src(c)[:50], 'tabled': SHAPELIT_TABLE.get(f.fq)}, (f.fq, src(c)[:50]))
+                if f.fq not in SHAPELIT_TABLE:
+                    res.add(Finding(rid, f, '`%s` reads the form of its argument off the trailing extents: a batch of vectors whose LAST BATCH extent equals the width (three '
+                                    'rotation vectors: shape (3, 3)) has the extents of the matrix form and is silently taken for it' % src(c)[:60], node=c,
+                                    construct='trailing extents decide the form|' + norm_construct(c, f.node)))
+    res.inst({'functions scanned': n}, 'scan')
+    return res
+
+
+def temp_sets(fnode):
+    """[(set stmt, restore stmt, target)]: `saved = T; T = new; ...call...; T = saved` with T an attribute / subscript of some object and the restoring assignment
+    NOT inside a `finally`: every exception raised by the calls in between leaves T at the temporary value."""
+    out = []
+    saved = {}                                               # local name -> dump of the target it was read from
+    def tdump(t):
+        return ast.dump(t).replace('ctx=Store()', 'ctx=Load()')
+    in_finally = set()
+    for n in ast.walk(fnode):
+        if isinstance(n, ast.Try):
+            for st in n.finalbody:
+                for x in ast.walk(st):
+                    in_finally.add(id(x))
+        elif isinstance(n, ast.With):
+            pass
+    assigns = []
+    for n in _own_nodes(fnode):
+        if isinstance(n, ast.Assign):
+            pairs = []
+            for t in n.targets:
+                if isinstance(t, ast.Tuple) and isinstance(n.value, ast.Tuple) and len(t.elts) == len(n.value.elts):
+                    pairs += list(zip(t.elts, n.value.elts))
+                else:
+                    pairs.append((t, n.value))
+            for t, v in pairs:
+                assigns.append((n, t, v))
+    assigns.sort(key=lambda x: (x[0].lineno, x[0].col_offset))
+    for n, t, v in assigns:
+        if isinstance(t, ast.Name) and isinstance(v, (ast.Attribute, ast.Subscript)):
+            saved[t.id] = (tdump(v), n.lineno)
+        elif isinstance(t, ast.Name) and isinstance(v, ast.Tuple):
+            pass
+    # tuple saves: start = (self.pos, self.rot)
+    for n, t, v in assigns:
+        if isinstance(t, ast.Name) and isinstance(v, ast.Tuple) and all(isinstance(e, (ast.Attribute, ast.Subscript)) for e in v.elts):
+            saved[t.id] = (tuple(tdump(e) for e in v.elts), n.lineno)
+    calls = sorted({c.lineno for c in _own_nodes(fnode) if isinstance(c, ast.Call)})
+    for n, t, v in assigns:
+        if not isinstance(t, (ast.Attribute, ast.Subscript)):
+            continue
+        if isinstance(v, ast.Name) and v.id in saved and saved[v.id][0] == tdump(t) and saved[v.id][1] < n.lineno:
+            # a temporary value was installed in between?
+            sets = [m for m, t2, v2 in assigns if tdump(t2) == tdump(t) and saved[v.id][1] < m.lineno < n.lineno]
+            if sets and any(sets[0].lineno < c <= n.lineno for c in calls) and id(n) not in in_finally:
+                out.append((sets[0], n, t))
+    # tuple restore: self.pos, self.rot = start
+    for n in _own_nodes(fnode):
+        if isinstance(n, ast.Assign) and len(n.targets) == 1 and isinstance(n.targets[0], ast.Tuple) and isinstance(n.value, ast.Name) and n.value.id in saved and \
+                isinstance(saved[n.value.id][0], tuple) and tuple(tdump(e) for e in n.targets[0].elts) == saved[n.value.id][0] and id(n) not in in_finally:
+            sets = [m for m, t2, v2 in assigns if tdump(t2) in saved[n.value.id][0] and saved[n.value.id][1] < m.lineno < n.lineno]
+            if sets and any(sets[0].lineno < c <= n.lineno for c in calls):
+                out.append((sets[0], n, n.targets[0].elts[0]))
+    return out
+
+
+@guarded
+def rule_tempset(repo, rid, modules):
+    res = RuleResult(rid, 'a value that is installed temporarily (save, set, ..calls.., restore) is restored in a `finally`: a restore that is a plain statement after the '
+                     'calls is skipped by every exception they raise, and the temporary value - a patched torch internal, a per-call cost, a clock - stays for the rest of '
+                     'the object\'s / the process\'s life', floor=1)
+    n = 0
+    for m in modules:
+        for f in repo.module(m).functions.values():
+            n += 1
+            for st, rs, t in temp_sets(f.node):
+                res.inst({'function': f.fq, 'temporary': src(st)[:50], 'restore': src(rs)[:50]}, (f.fq, src(st)[:50]))
+                res.add(Finding(rid, f, '`%s` installs a temporary value and `%s` puts the old one back as an ordinary statement: when one of the calls in between raises (a user '
+                                'function, a shape check) and the caller carries on with the same objects, `%s` keeps the temporary value' % (src(st)[:50], src(rs)[:50], src(t)[:30]),
+                                node=rs, construct='restore outside finally|' + src(t)[:30]))
+            # a @contextmanager generator: what follows the yield is the cleanup, it runs only through a finally when the body of the `with` raises
+            if any(dn.split('.')[-1] == 'contextmanager' for dn in f.decorator_names()):
+                for y in [x for x in ast.walk(f.node) if isinstance(x, (ast.Yield, ast.YieldFrom))]:
+                    protected = any(isinstance(tr, ast.Try) and tr.finalbody and any(x is y for b in tr.body for x in ast.walk(b)) for tr in ast.walk(f.node))
+                    after = [st for st in ast.walk(f.node) if isinstance(st, ast.stmt) and st.lineno > y.lineno and not isinstance(st, (ast.Pass,))]
+                    res.inst({'function': f.fq, 'context manager': True, 'cleanup after yield in a finally': protected or not after}, (f.fq, 'ctx', y.lineno))
+                    if after and not protected:
+                        res.add(Finding(rid, f, 'the context manager %s runs its cleanup (`%s` ...) after a bare `yield`: an exception raised inside the `with` block is thrown '
+                                        'into the generator at the yield and the cleanup never runs' % (f.fq.split(':')[-1], src(after[0])[:40]), node=after[0],
+                                        construct='context manager cleanup outside finally'))
+    res.inst({'functions scanned': n}, 'scan')
+    fx = ast.parse('def f(self, p):\n    old = self.p\n    self.p = p\n    r = self.solve()\n    self.p = old\n    return r\n'
+                   'def g(self, p):\n    old = self.p\n    self.p = p\n    try:\n        r = self.solve()\n    finally:\n        self.p = old\n    return r\n').body
+    if [len(temp_sets(x)) for x in fx] != [1, 0]:
+        raise AnalysisError('%s: fixtures no longer classified (%r)' % (rid, [len(temp_sets(x)) for x in fx]))
+    return res
+
+
 # ------------------------------------------------------------------------------------------------ sites read and tabled (2026-09, HEAD e00fd9c)
 EXEMPT_DT = {
     ('pypose.function.geometry:voxel_filter', 'torch.tensor(v0, device=v1.device)'): 'voxel sizes given as a Python list: used as a divisor, type-promoted with the points',
@@ -1003,4 +1306,4 @@ def mode_rules(repo, pid, modules):
     from .ipalias import rule_ipalias, rule_lostupdate, rule_storage
     from .unused import rule_unused
     return [rule_dtype_mod(repo, pid + '.DTMOD', modules, EXEMPT_DT), rule_mode(repo, pid + '.MODE', modules, EXEMPT_MODE),
-            rule_ipalias(repo, pid + '.IPA', modules), rule_unused(repo, pid + '.UNUSED', modules), rule_cast(repo, pid + '.CAST', modules), rule_api(repo, pid + '.API', modules), rule_lostupdate(repo, pid + '.LOST', modules), rule_guardset(repo, pid + '.GUARDS', modules), rule_rng(repo, pid + '.RNG', modules), rule_attrs(repo, pid + '.ATTRS', modules), rule_argmut(repo, pid + '.ARGMUT', modules), rule_storage(repo, pid + '.STORAGE', modules), rule_hygiene(repo, pid + '.HYGIENE', modules), rule_argattr(repo, pid + '.ARGATTR', modules), rule_sharedstate(repo, pid + '.SHAREDST', modules), rule_globals(repo, pid + '.GLOBALS')]
+            rule_ipalias(repo, pid + '.IPA', modules), rule_unused(repo, pid + '.UNUSED', modules), rule_cast(repo, pid + '.CAST', modules), rule_api(repo, pid + '.API', modules), rule_lostupdate(repo, pid + '.LOST', modules), rule_guardset(repo, pid + '.GUARDS', modules), rule_rng(repo, pid + '.RNG', modules), rule_attrs(repo, pid + '.ATTRS', modules), rule_argmut(repo, pid + '.ARGMUT', modules), rule_storage(repo, pid + '.STORAGE', modules), rule_hygiene(repo, pid + '.HYGIENE', modules), rule_argattr(repo, pid + '.ARGATTR', modules), rule_sharedstate(repo, pid + '.SHAREDST', modules), rule_globals(repo, pid + '.GLOBALS'), rule_rankcmp(repo, pid + '.RANKCMP', modules), rule_ducklist(repo, pid + '.DUCKLIST', modules), rule_shapeform(repo, pid + '.SHAPEFORM', modules), rule_collabattr(repo, pid + '.COLLAB', modules), rule_shapelit(repo, pid + '.SHAPELIT', modules), rule_tempset(repo, pid + '.TEMPSET', modules)]
